@@ -251,7 +251,31 @@ func keywordsOf(schema string) string {
 func tags(schema string) string {
 	var x any
 	json.Unmarshal([]byte(schema), &x)
-	falseComb, container, propNames, allOf3 := false, false, false, false
+	falseComb, container, propNames, allOf3, ifDisjoint := false, false, false, false, false
+	// typeSet returns the set of JSON types a schema's "type" keyword allows
+	typeSet := func(v any) map[string]bool {
+		m, ok := v.(map[string]any)
+		if !ok {
+			return nil
+		}
+		set := map[string]bool{}
+		switch t := m["type"].(type) {
+		case string:
+			set[t] = true
+		case []any:
+			for _, e := range t {
+				if s, ok := e.(string); ok {
+					set[s] = true
+				}
+			}
+		default:
+			return nil
+		}
+		if set["number"] {
+			set["integer"] = true
+		}
+		return set
+	}
 	isContainer := func(v any) bool {
 		switch v.(type) {
 		case map[string]any, []any:
@@ -280,6 +304,34 @@ func tags(schema string) string {
 			case "not", "if", "then", "else":
 				if b, ok := v.(bool); ok && !b {
 					falseComb = true
+				}
+				if k == "if" {
+					// a then-branch that no instance matching the if-branch can
+					// satisfy (or an else-branch only such instances can)
+					if it := typeSet(v); it != nil {
+						if tt := typeSet(m["then"]); tt != nil {
+							overlap := false
+							for t := range it {
+								if tt[t] || (t == "integer" && tt["number"]) {
+									overlap = true
+								}
+							}
+							if !overlap {
+								ifDisjoint = true
+							}
+						}
+						if et := typeSet(m["else"]); et != nil {
+							outside := false
+							for t := range et {
+								if !it[t] {
+									outside = true
+								}
+							}
+							if !outside {
+								ifDisjoint = true
+							}
+						}
+					}
 				}
 				walk(v)
 			case "const":
@@ -313,6 +365,9 @@ func tags(schema string) string {
 	}
 	if allOf3 {
 		t += " allOf-with-3-or-more-members"
+	}
+	if ifDisjoint {
+		t += " if-branch-unsatisfiable-by-type"
 	}
 	return t
 }
@@ -358,24 +413,30 @@ func keywords(schema string) string {
 }
 
 func extract(ctx *cue.Context, schema string) (cue.Value, error) {
+	v, _, err := extractText(ctx, schema)
+	return v, err
+}
+
+// extractText also returns the formatted CUE source of the imported schema.
+func extractText(ctx *cue.Context, schema string) (cue.Value, string, error) {
 	e, err := cuejson.Extract("schema.json", []byte(schema))
 	if err != nil {
-		return cue.Value{}, fmt.Errorf("json: %v", err)
+		return cue.Value{}, "", fmt.Errorf("json: %v", err)
 	}
 	jv := ctx.BuildExpr(e)
 	f, err := jsonschema.Extract(jv, &jsonschema.Config{StrictFeatures: true, DefaultVersion: jsonschema.VersionDraft2020_12})
 	if err != nil {
-		return cue.Value{}, err
+		return cue.Value{}, "", err
 	}
 	b, err := format.Node(f, format.Simplify())
 	if err != nil {
-		return cue.Value{}, err
+		return cue.Value{}, "", err
 	}
 	sv := ctx.CompileBytes(b, cue.Filename("generated.cue"))
 	if err := sv.Err(); err != nil {
-		return cue.Value{}, fmt.Errorf("generated CUE does not compile: %v\n%s", err, b)
+		return cue.Value{}, string(b), fmt.Errorf("generated CUE does not compile: %v\n%s", err, b)
 	}
-	return sv, nil
+	return sv, string(b), nil
 }
 
 // check compares the verdicts for one schema and returns the JSON Schema
@@ -386,11 +447,17 @@ func check(r *core.Run, c kase, verdict string) (generated string) {
 		return
 	}
 	ctx := cuecontext.New()
-	sv, err := extract(ctx, c.Schema)
+	sv, text, err := extractText(ctx, c.Schema)
 	if err != nil {
 		r.Outcome("import-error")
 		r.Count("import_errors", 1)
 		return
+	}
+	// a branch of if/then/else that the importer found unsatisfiable becomes
+	// error("disallowed") inside matchIf (see known_findings.jsonl)
+	extraTag := ""
+	if strings.Contains(text, "matchIf(") && strings.Contains(text, `error("disallowed")`) {
+		extraTag = " matchIf-with-disallowed-branch"
 	}
 	nAcc := 0
 	rowOK := true
@@ -405,7 +472,7 @@ func check(r *core.Run, c kase, verdict string) (generated string) {
 		}
 		if got != want {
 			rowOK = false
-			r.Violation(fmt.Sprintf("verdict differs [%s] cue=%v spec=%v: %s on %s", keywordsOf(c.Schema), got, want, c.Schema, inst),
+			r.Violation(fmt.Sprintf("verdict differs [%s%s] cue=%v spec=%v: %s on %s", keywordsOf(c.Schema), extraTag, got, want, c.Schema, inst),
 				kase{Schema: c.Schema, Instance: inst}, fmt.Sprintf("schema %s\ninstance %s\nCUE says valid=%v, JSON Schema says valid=%v\ngenerated CUE: %v", c.Schema, inst, got, want, sv))
 			break
 		}
@@ -463,4 +530,3 @@ func compareGenerated(r *core.Run, schema, gj, verdict, gv string) {
 	}
 	r.Outcome("roundtrip-agree")
 }
-
